@@ -987,7 +987,7 @@ impl CanonicalizeContext {
 				let children = mathml.children();
 				if children.is_empty() {
 					return if parent_requires_child {Some( CanonicalizeContext::make_empty_element(mathml) )} else {None};
-				} else if children.len() == 1 {
+				} else if children.len() == 1 && mathml.attribute(INTENT_ATTR).is_none() {
 					let is_from_mhchem = element_name == "mpadded" && is_from_mhchem_hack(mathml);
 					if let Some(new_mathml) = self.clean_mathml( as_element(children[0]) ) {
 						// "lift" the child up so all the links (e.g., siblings) are correct
@@ -1007,8 +1007,12 @@ impl CanonicalizeContext {
 					}
 				} else {
 					// wrap the children in an mrow, but maintain tree siblings by changing mpadded/mstyle to mrow
+					// this is also done for a single child if there is an intent: like an mrow with an intent, the element can't be merged
+					//   with its child because the intent might refer to the child (it would become a reference to itself)
 					set_mathml_name(mathml, "mrow");
-					mathml.set_attribute_value(CHANGED_ATTR, ADDED_ATTR_VALUE);
+					if mathml.attribute(INTENT_ATTR).is_none() {
+						mathml.set_attribute_value(CHANGED_ATTR, ADDED_ATTR_VALUE);
+					}
 					return self.clean_mathml(mathml);	// now it's an mrow so a different path next time
 				}
 			},
